@@ -111,6 +111,8 @@ const (
 	docA = "SELECT COUNT(a) FROM t;\nSELEC b;\nSELECT c FROM u;"
 	docU = "SELECT é, '😀' AS x FROM t;\nSELEC é;"
 	docF = "SELECT 1;\nSELECT FROM WHERE;\nSELEC 2;\nSELECT 3;"
+	// two-word keywords (one tokenizer token, two parser tokens) on lines before the broken statements
+	docK = "SELECT a FROM t LEFT JOIN u ON a = b ORDER BY a;\nSELECT c FROM v GROUP BY c ORDER BY c;\nSELEC 1;\nSELECT d FROM w;\nSELECT e FROM x ORDER BY e, ;"
 	docB = "SELECT b FROM t2;\nSELEC 1;\nSELEC 2;"
 )
 
@@ -272,7 +274,9 @@ func alphabet() []item {
 		// ---- document synchronisation
 		openItem("open-a", docA),
 		openItem("open-u", docU),
+		openItem("open-k", docK),
 		changeItem("chg-full", edit{Full: true, Text: docF}),
+		changeItem("chg-full-k", edit{Full: true, Text: docK}),
 		changeItem("chg-in", edit{S: pos{0, 8}, E: pos{0, 9}, Text: "x"}),                    // behind 'é' in docU
 		changeItem("chg-lines", edit{S: pos{0, 3}, E: pos{1, 2}, Text: "\n"}),                // spans a line break
 		changeItem("chg-eol", edit{S: pos{1, 4}, E: pos{1, 1000}, Text: " 1;"}),              // end past the end of the line
